@@ -143,8 +143,11 @@ fn ieee_classification() {
 #[kani::proof]
 #[kani::unwind(40)]
 fn unicode_operator_chars_not_xid() {
-    let ops = ['\u{2264}', '\u{2265}', '\u{2260}', '\u{2A75}', '\u{2192}', '\u{279E}', '\u{2212}', '\u{00D7}', '\u{00F7}', '\u{00B7}', '\u{22C5}',
-               '+', '-', '*', '/', '^', '<', '>', '=', '!', '|', '&', '(', ')', '[', ']', '{', '}', ',', ':', ';', '?', ' '];
+    let ops = [
+        '\u{2264}', '\u{2265}', '\u{2260}', '\u{2A75}', '\u{2192}', '\u{279E}', '\u{2212}',
+        '\u{00D7}', '\u{00F7}', '\u{00B7}', '\u{22C5}', '+', '-', '*', '/', '^', '<', '>', '=',
+        '!', '|', '&', '(', ')', '[', ']', '{', '}', ',', ':', ';', '?', ' ',
+    ];
     let mut i = 0;
     while i < ops.len() {
         let c = ops[i];
@@ -160,4 +163,11 @@ fn unicode_operator_chars_not_xid() {
 fn ieee_lt_asymmetric() {
     let (x, y): (f64, f64) = (kani::any(), kani::any());
     assert!(!(x < y && y < x));
+}
+
+/// unit `toknum`: the assumed specification of `char::is_ascii_digit` (all 0x110000 - 0x800 scalar values; loop-free, complete)
+#[kani::proof]
+fn char_is_ascii_digit_is_0_to_9() {
+    let c: char = kani::any();
+    assert!(c.is_ascii_digit() == ('0' <= c && c <= '9'));
 }
